@@ -65,6 +65,10 @@ CHECKS = {
          "Each byte string is placed in turn at the question name, owner name and every RDATA name / string / opaque field of all 39 typed variants; the real parser's output is then formatted with Debug and Display at every level, cloned, converted to owned, hashed, compared, queried for TXT attributes and string conversions, matched against question types/classes and passed to the name relations. Any panic is a violation; fallible conversions may return Err or a lossy rendering.",
          "Only panics are judged, not the rendering chosen.",
          "DESIGN.md section 3, C12"),
+ "C13": ("explicit-state breadth-first search over add-authoritative / add-cached / remove / clear histories on the real record store (depth 4, 5 thorough; 37 operations; states deduplicated by a canonical fingerprint), every transition executed on the real store and read back, every state queried with the full question menu through the real build_reply and judged by a reply model",
+         "All 1.1e4 (1.1e5 thorough) reachable store states over a 12-record menu whose owners collide under concatenation and byte-prefixing are built on the real ResourceRecordManager; every one of the 37 operations out of every state is executed and the real store read back through get_domain_resources and compared with the plain-map reference store (so a merged state cannot hide a divergence); in every state 864 queries (every single question over 8 owners x 6 types x 3 classes x unicast, every ordered pair from a 24-question menu) run through build_reply and are checked for soundness, completeness at the question's own name, justified additional records, id, response flag, unicast aggregation and 'no reply iff nothing matches'. An insertion-order differential (all ordered pairs/triples of records without deduplication) validates the state abstraction.",
+         "build_reply and the store are reached through the cfg-guarded simple_mdns::verif module. Answers are compared as sets; optional subdomain answers are allowed.",
+         "DESIGN.md section 3, C13"),
 }
 NOT_YET = {}
 
